@@ -130,7 +130,116 @@ func c05Gen(tier string, seed int64) []fw.Case {
 		dd := d
 		cases = append(cases, fw.Case{Name: fmt.Sprintf("%s/%s/stale-writer-handle", d.Role, paramsKey(d.Params)), Desc: dd, Run: func(r *fw.R) { c05StaleHandle(r, dd) }})
 	}
+	// targeted: a frame header that straddles the end of the 4096-byte write buffer - the flush in the middle of
+	// the header blocks in the transport while other goroutines (Pings, the reader's Pong) arrive at the frame
+	// writer: what they do while they wait must not leak into the header that is half written
+	for i := 0; i < tierPick(tier, 78, 780); i++ {
+		d := c05Desc{Seed: rng.U64(), Role: bothRoles[i%2], Params: wire.Params{}, Thr: 1 << 20, Closer: "header-straddles-write-buffer", Peer: "raw", Writers: 1, PerW: 1, Pingers: 2}
+		d.WriteMax = 1 + (i/2)%13          // bytes of the second frame's header that still fit into the buffer
+		d.PerW = []int{100, 1000, 70000}[(i/26)%3] // size of the second chunk: 7 bit, 16 bit, 64 bit length
+		dd := d
+		cases = append(cases, fw.Case{Name: fmt.Sprintf("%s/header-straddles-write-buffer/fit=%d/second=%d", d.Role, d.WriteMax, d.PerW), Desc: dd, Run: func(r *fw.R) { c05Straddle(r, dd) }})
+	}
 	return cases
+}
+
+// c05Straddle: a streamed message whose first frame leaves d.WriteMax free bytes in the write buffer; the second
+// frame's header is cut by the flush, which blocks (the peer has stopped reading) while two Pings and a Pong
+// reply queue up behind it.
+func c05Straddle(r *fw.R, d c05Desc) {
+	r.SetSample(d)
+	setPerturb(d.Seed, 0)
+	c, libEnd, peerEnd, err := libConn(d.Role, d.Params, d.Thr, xport.Plan{}, xport.Plan{})
+	if err != nil {
+		r.Violate("C05/attach-failed", err.Error(), "")
+		return
+	}
+	defer c.CloseNow()
+	defer peerEnd.Close()
+	peer := newRawPeer(peerEnd, d.Role, d.Params, d.Seed)
+	peer.AutoPong = true
+	peer.Start()
+	base, cancelAll := context.WithTimeout(context.Background(), 60*time.Second)
+	defer cancelAll()
+	go func() {
+		for {
+			if _, _, err := c.Read(base); err != nil {
+				return
+			}
+		}
+	}()
+	hdr1 := 4 // 2 + 16 bit length
+	if d.Role == RoleClient {
+		hdr1 += 4
+	}
+	s1 := 4096 - d.WriteMax - hdr1
+	body := tagPayload(1, 0, s1+d.PerW)
+	what := fmt.Sprintf("%s header-straddles-write-buffer: first chunk %d bytes (leaves %d bytes of the buffer), second chunk %d bytes", d.Role, s1, d.WriteMax, d.PerW)
+	w, err := c.Writer(base, websocket.MessageBinary)
+	if err == nil {
+		_, err = w.Write(body[:s1])
+	}
+	if err != nil {
+		r.Violate("C05/write-failed", what+": "+err.Error(), "")
+		return
+	}
+	libEnd.StallWrites(true)
+	var wg sync.WaitGroup
+	werr := make(chan error, 1)
+	go func() {
+		_, e := w.Write(body[s1:])
+		if e == nil {
+			e = w.Close()
+		}
+		werr <- e
+	}()
+	stalled := false
+	for t0 := time.Now(); time.Since(t0) < 5*time.Second; time.Sleep(50 * time.Microsecond) {
+		if libEnd.Stalled() > 0 {
+			stalled = true
+			break
+		}
+	}
+	for k := 0; k < d.Pingers; k++ {
+		wg.Add(1)
+		go func() {
+			defer wg.Done()
+			c.Ping(base)
+		}()
+	}
+	peer.Send(wire.Ping([]byte("answer me while the header is half written")))
+	time.Sleep(time.Duration(500+int(d.Seed%1500)) * time.Microsecond)
+	libEnd.StallWrites(false)
+	select {
+	case err = <-werr:
+	case <-time.After(30 * time.Second):
+		r.Violate("C05/writers-stuck/header-straddles-write-buffer", what+": the streamed write did not return within 30 s after the transport resumed", "")
+		return
+	}
+	wg.Wait()
+	time.Sleep(time.Millisecond)
+	c.CloseNow()
+	peer.WaitEnd(10 * time.Second)
+	if stalled {
+		r.Count("frame_headers_cut_by_a_blocked_flush_with_other_writers_queued", 1)
+	}
+	conf := &wire.Conform{FromClient: d.Role == RoleClient, P: d.Params}
+	conf.Write(libEnd.Sent())
+	for _, v := range conf.Violations {
+		r.Violate("C05/nonconformant-stream/"+vioClass(v), fmt.Sprintf("%s (write result %v): %s", what, err, v), "frames: "+tail(string(conf.FrameLog), 100))
+	}
+	found := false
+	for i, m := range conf.Messages {
+		if _, _, e := checkTagged(m.Data); e != nil {
+			r.Violate("C05/mixed-or-corrupt-message/"+comprKey(m.Compressed), fmt.Sprintf("%s: message %d (%d bytes): %v", what, i, len(m.Data), e), "frames: "+tail(string(conf.FrameLog), 100))
+		} else if bytes.Equal(m.Data, body) {
+			found = true
+		}
+	}
+	if err == nil && !found && len(conf.Violations) == 0 {
+		r.Violate("C05/message-lost/header-straddles-write-buffer", what+": Write and Close returned nil, the message is not on the wire as written", "frames: "+tail(string(conf.FrameLog), 100))
+	}
+	r.Key("%s/header-straddles-write-buffer/fit=%d/second=%d/stalled=%v", d.Role, d.WriteMax, d.PerW, stalled)
 }
 
 // c05StaleHandle: W1 writes a message through Writer and closes it. W2 takes the writer and streams the first
